@@ -3,7 +3,7 @@ from .core import Job
 
 
 def jobs(seed=0):
-    return [Job(name="static.inventory", props=["C12", "C15"], shape="S7", sources=[], harness="", entry="", kind="native",
+    return [Job(name="static.inventory", props=["C12", "C15", "C07"], shape="S7", sources=[], harness="", entry="", kind="native",
                 native_cmd=["python3", "tools/static_inventory.py"], functions=[], timeout=900,
                 bound_note="goto symbol tables + call graph of /repo's current sources; function pointers through module->func resolved "
                            "to the targets module_api.c stores, other indirect calls to every type-compatible function")]
